@@ -121,6 +121,9 @@ theorem runScript_good (feed : Feed) (hf : GoodFeed feed) (acts : List Act) : âˆ
       | endS =>
         simp only [runScript]
         exact Good.pre (pre := [.endSess]) (ih s) (neutral_single _ (by simp [isPrompt, isStored, isEntered]))
+      | del =>
+        simp only [runScript]
+        exact Good.pre (pre := [.delS]) (ih s) (neutral_single _ (by simp [isPrompt, isStored, isEntered]))
   | some f =>
     induction acts with
     | nil => intro s; exact good_neutral rfl rfl Neutral.nil
@@ -138,6 +141,9 @@ theorem runScript_good (feed : Feed) (hf : GoodFeed feed) (acts : List Act) : âˆ
       | endS =>
         simp only [runScript]
         exact Good.pre (pre := [.endSess]) (ih s) (neutral_single _ (by simp [isPrompt, isStored, isEntered]))
+      | del =>
+        simp only [runScript]
+        exact Good.pre (pre := [.delS]) (ih s) (neutral_single _ (by simp [isPrompt, isStored, isEntered]))
 
 theorem userCmd_good (ns : Nodes) (feed : Feed) (hf : GoodFeed feed) (s : St) (args : List Str) (cmd : Str) :
     Good s (userCmd ns feed s args cmd) := by
